@@ -180,6 +180,14 @@ Theorem collision_both_stored :
 Proof. exact collision_both_stored_lemma. Qed.
 Print Assumptions collision_both_stored.
 
+(* the hypotheses of typed_identity are satisfiable: a chunk and a tree with the same id in one source *)
+Theorem typed_identity_inhabited :
+  exists s r, backup_run ex_tid [] ex_collision_items ex_collision_events s r /\
+              In (Data, 100%N) (r_all r) /\ In (Tree, 100%N) (r_all r) /\
+              idx s = [(Data, [100%N]); (Tree, [100%N; 102%N; 101%N])].
+Proof. exact typed_identity_inhabited_lemma. Qed.
+Print Assumptions typed_identity_inhabited.
+
 (* a complete backup run exists: a directory with one two-chunk file and an empty directory,
    chunk 7 already in the index *)
 Theorem backup_run_inhabited :
